@@ -13,6 +13,10 @@ use trust_runtime::debug::{
     SourceLocation,
 };
 
+use trust_runtime::eval::EvalContext;
+use trust_runtime::memory::VariableStorage;
+use trust_runtime::value::{DateTimeProfile, Duration as RtDuration, Value};
+
 use crate::engine::catch;
 use crate::stgen::ast::*;
 use crate::stgen::rt::{snapshot, val_to_value, Real};
@@ -381,6 +385,10 @@ pub struct Model<'w> {
     /// issued between the hook of a call statement and the hook of the callee's first one.
     pub running_steps: u32,
     pub running_steps_at_call_entry: u32,
+    pub continue_then_pause: u32,
+    /// Pause stops reported at the position of the previous stop (from the wait loop).
+    pub wait_loop_stops: u32,
+    last_stop_positions: Vec<usize>,
     pub reasons: BTreeMap<&'static str, u32>,
     pub commands: BTreeMap<&'static str, u32>,
 }
@@ -431,6 +439,9 @@ impl<'w> Model<'w> {
             boundary_pauses: 0,
             running_steps: 0,
             running_steps_at_call_entry: 0,
+            continue_then_pause: 0,
+            wait_loop_stops: 0,
+            last_stop_positions: Vec::new(),
             reasons: BTreeMap::new(),
             commands: BTreeMap::new(),
         }
@@ -665,10 +676,21 @@ impl<'w> Model<'w> {
             },
             s.thread
         ));
+        if at.len() == 1 && self.last_stop_positions == at {
+            self.wait_loop_stops += 1;
+        }
         self.at = at;
         self.at_reason = s.reason;
         self.hyps.clear();
         Ok(self.at[0])
+    }
+
+    /// The position of the current stop when there is exactly one candidate.
+    pub fn sure_position(&self) -> Option<usize> {
+        match self.at.as_slice() {
+            [p] => Some(*p),
+            _ => None,
+        }
     }
 
     /// Model-only run (planning of user writes): take the predicted position as observed.
@@ -693,10 +715,47 @@ impl<'w> Model<'w> {
     }
 
     /// The controller resumes from the current stop with `cmd` naming `thread`.
-    pub fn resume(&mut self, cmd: Resume, thread: Option<u32>, stop_thread: Option<u32>) {
+    pub fn resume(
+        &mut self,
+        cmd: Resume,
+        thread: Option<u32>,
+        stop_thread: Option<u32>,
+        then_pause: bool,
+    ) {
         let w = self.w;
         *self.commands.entry(cmd.name()).or_default() += 1;
         self.log.push(format!("  {}({:?})", cmd.name(), thread));
+        if then_pause && matches!(cmd, Resume::Continue) {
+            // continue immediately followed by pause(None): the parked hook normally wakes up
+            // paused again and reports the pause from its wait loop at the same statement;
+            // if it got away first, the pause stops it at some later statement
+            self.log.push("  pause(None) immediately after it".into());
+            self.continue_then_pause += 1;
+            let mut hyps = Vec::new();
+            for p in self.at.iter().copied() {
+                hyps.push(Hyp {
+                    last: Some(p),
+                    other: Some((p, DebugStopReason::Pause)),
+                    generic: false,
+                    floor: p,
+                    pause_pending: true,
+                    bound: None,
+                });
+                hyps.push(Hyp {
+                    last: Some(p),
+                    other: None,
+                    generic: true,
+                    floor: p + 1,
+                    pause_pending: true,
+                    bound: None,
+                });
+            }
+            self.last_stop_positions = self.at.clone();
+            self.hyps = hyps;
+            self.at.clear();
+            return;
+        }
+        self.last_stop_positions = self.at.clone();
         let origin_reason = self.at_reason;
         let from_pause = matches!(
             origin_reason,
@@ -1196,6 +1255,10 @@ fn spawn_hook_thread(
                 let mut hook = control.clone();
                 let mut current: Option<u32> = None;
                 let mut open = false;
+                // a storage of our own, so that the snapshot a stop leaves behind can be told
+                // apart from every other one: global POS = index of the position being hooked
+                let mut storage = VariableStorage::new();
+                let registry = trust_hir::types::TypeRegistry::new();
                 for (i, p) in positions.iter().enumerate() {
                     if !open && gates.contains(&i) {
                         let _ = tx.send(DebugStop {
@@ -1214,7 +1277,27 @@ fn spawn_hook_thread(
                     }
                     progress.cycles.store(i as u64, Ordering::SeqCst);
                     let loc = SourceLocation::new(0, p.start, p.end);
-                    hook.on_statement(Some(&loc), p.depth);
+                    storage.set_global("POS", Value::LInt(i as i64));
+                    let mut ctx = EvalContext {
+                        storage: &mut storage,
+                        registry: &registry,
+                        profile: DateTimeProfile::default(),
+                        now: RtDuration::from_nanos(i as i64),
+                        debug: None,
+                        call_depth: p.depth,
+                        functions: None,
+                        stdlib: None,
+                        function_blocks: None,
+                        classes: None,
+                        using: None,
+                        access: None,
+                        current_instance: None,
+                        return_name: None,
+                        loop_depth: 0,
+                        pause_requested: false,
+                        execution_deadline: None,
+                    };
+                    hook.on_statement_with_context(&mut ctx, Some(&loc), p.depth);
                 }
             });
             if let Err(p) = r {
@@ -1230,6 +1313,112 @@ pub fn bp_ranges(w: &World, stmts: &[u32]) -> Vec<(u32, u32)> {
 
 pub fn sel_thread(w: &World, sel: ThreadSel, current: Option<u32>) -> Option<u32> {
     resolve_sel(w, sel, current)
+}
+
+#[derive(Default)]
+pub struct SnapshotChecks {
+    pub present: u32,
+    pub content: u32,
+}
+
+/// The snapshot clause at a stop. Runtime engine: `snapshot()` is Some, its `now` is the
+/// simulated time of the cycle in progress, and - for at most three stops per script whose
+/// position is certain and at call depth 0 (inside a call the reference's by-reference
+/// IN_OUT/OUT bindings and the runtime's copy-out differ legitimately) - its storage equals
+/// the reference state immediately before the statement. Hook engine: the snapshot holds
+/// the storage and time the hook call of exactly this position was given (POS marker).
+#[allow(clippy::too_many_arguments)]
+fn check_snapshot(
+    w: &World,
+    control: &DebugControl,
+    rec: &StopRec,
+    p: usize,
+    sure: Option<usize>,
+    token: usize,
+    engine: Engine,
+    done: &mut SnapshotChecks,
+) -> Result<(), String> {
+    let Some(snap) = control.snapshot() else {
+        return Err(format!(
+            "stopped ({:?}) at {} but DebugControl::snapshot() is None: a client that inspects the stopped program (stackTrace / scopes / variables) has to lock the runtime, which the parked cycle thread holds - it can never send the continue",
+            rec.reason,
+            w.describe(p)
+        ));
+    };
+    done.present += 1;
+    match engine {
+        Engine::Hook => {
+            let want = Value::LInt(token as i64);
+            let got = snap.storage.get_global("POS").cloned();
+            if got.as_ref() != Some(&want) || snap.now.as_nanos() != token as i64 {
+                return Err(format!(
+                    "stale snapshot at the stop ({:?}) at {}: it holds the storage of the hook call of position {:?} (time {} ns), the stop was produced by the hook call of position {token}",
+                    rec.reason,
+                    w.describe(p),
+                    got,
+                    snap.now.as_nanos()
+                ));
+            }
+            done.content += 1;
+        }
+        Engine::Runtime => {
+            let want_now = w.time_in_cycle(token);
+            if snap.now.as_nanos() != want_now {
+                return Err(format!(
+                    "snapshot at the stop ({:?}) at {} carries time {} ns, the cycle in progress runs at {} ns",
+                    rec.reason,
+                    w.describe(p),
+                    snap.now.as_nanos(),
+                    want_now
+                ));
+            }
+            let Some(q) = sure else { return Ok(()) };
+            if done.content >= 3 || w.pos[q].depth != 0 {
+                return Ok(());
+            }
+            let Some(want) = w.reference_state_before(q) else {
+                return Ok(());
+            };
+            done.content += 1;
+            let got = super::world::flatten_storage(&snap.storage, &w.decl);
+            let skip = w.for_control_paths();
+            let under = |path: &str, prefix: &str| {
+                path == prefix
+                    || (path.starts_with(prefix)
+                        && matches!(path.as_bytes().get(prefix.len()), Some(b'.') | Some(b'[')))
+            };
+            let mut diffs = Vec::new();
+            for (path, wv) in &want {
+                if w.decl
+                    .instances
+                    .iter()
+                    .any(|(inst, _)| path.strip_suffix(".#type") == Some(inst.as_str()))
+                    || skip.iter().any(|s| under(path, s))
+                {
+                    continue;
+                }
+                match got.get(path) {
+                    Some(gv) if gv == wv => {}
+                    Some(gv) => diffs.push(format!(
+                        "{path}: snapshot {} , state before the statement {}",
+                        gv.show(),
+                        wv.show()
+                    )),
+                    None => diffs.push(format!("{path}: missing in the snapshot")),
+                }
+            }
+            if !diffs.is_empty() {
+                diffs.truncate(6);
+                return Err(format!(
+                    "the snapshot at the stop ({:?}) at {} is not the state of the program at that statement (stale or wrong snapshot):\n  {}",
+                    rec.reason,
+                    w.describe(p),
+                    diffs.join("\n  ")
+                ));
+            }
+        }
+    }
+    Ok(())
 }
 
 pub fn run_lockstep(
@@ -1313,6 +1502,7 @@ pub fn run_lockstep(
     let mut finalised = false;
     let mut nstops = 0usize;
     let mut writes_issued = 0u32;
+    let mut snapshot_checks = SnapshotChecks::default();
     let mut verdict: Result<Option<String>, String> = Ok(None); // Ok(Some(wedge text))
     loop {
         match await_event(&rx, &control, &shared) {
@@ -1385,6 +1575,17 @@ pub fn run_lockstep(
                         break;
                     }
                 };
+                // while execution is stopped the debugger must hold a snapshot of the stopped
+                // program (DebugSnapshot: "Snapshot of runtime state at a stop"): every
+                // consumer (trust-debug's PausedStateView, the control endpoint's debug
+                // handlers) reads state from it and otherwise falls back to locking the
+                // runtime, which the parked cycle thread holds for the whole cycle
+                if let Err(e) =
+                    check_snapshot(w, &control, &rec, p, model.sure_position(), token, engine, &mut snapshot_checks)
+                {
+                    verdict = Err(e);
+                    break;
+                }
                 // exactly one notification per stop: after any call that takes the debug
                 // state's lock, every notification of the current stop has been sent
                 let _ = control.mode();
@@ -1442,8 +1643,12 @@ pub fn run_lockstep(
                         DebugStopReason::Pause | DebugStopReason::Entry
                     ));
                     let t = resume.sel().and_then(|s| resolve_sel(w, s, rec.thread));
-                    model.resume(resume, t, rec.thread);
+                    let then_pause = r.then_pause && matches!(resume, Resume::Continue);
+                    model.resume(resume, t, rec.thread, then_pause);
                     let _ = control.apply_action(action_of(resume, t));
+                    if then_pause {
+                        let _ = control.apply_action(ControlAction::Pause(None));
+                    }
                     next += 1;
                 } else {
                     control.clear_breakpoints();
@@ -1556,6 +1761,18 @@ pub fn run_lockstep(
             if model.running_steps > 0 {
                 labels.push("lock:step_while_running_at_a_gate".into());
             }
+            if model.continue_then_pause > 0 {
+                labels.push("lock:continue_then_pause".into());
+            }
+            if model.wait_loop_stops > 0 {
+                labels.push("lock:pause_stop_from_the_wait_loop".into());
+            }
+            if snapshot_checks.present > 0 {
+                labels.push("lock:snapshot_present_checked".into());
+            }
+            if snapshot_checks.content > 0 {
+                labels.push("lock:snapshot_content_checked".into());
+            }
             if model.running_steps_at_call_entry > 0 {
                 labels.push(
                     "lock:step_over_or_out_while_running_between_call_hook_and_callee_hook".into(),
@@ -1629,6 +1846,7 @@ pub struct RacyStats {
     /// many of them had a pause stop as origin.
     pub depth_clause_checks: u64,
     pub depth_clause_checks_from_pause: u64,
+    pub snapshot_checks: u64,
 }
 
 impl RacyStats {
@@ -1643,6 +1861,7 @@ impl RacyStats {
             racer_total: 0,
             depth_clause_checks: 0,
             depth_clause_checks_from_pause: 0,
+            snapshot_checks: 0,
         }
     }
 }
@@ -1839,8 +2058,34 @@ pub fn run_racy_once(
                 recs.push(rec.clone());
                 answers.push(None);
                 if !racer_resumes {
-                    // only this thread resumes: a second notification before our resume
-                    // means two stops without a resume in between
+                    // only this thread resumes, so the thread is still stopped: the snapshot
+                    // clause (see `check_snapshot`) - present, and of the cycle in progress
+                    let cycle = shared.cycles.load(Ordering::SeqCst) as usize;
+                    match control.snapshot() {
+                        None => {
+                            verdict = Err(format!(
+                                "stopped ({:?}) at {} but DebugControl::snapshot() is None (the second command thread only pauses and edits breakpoints, nobody has resumed): a client that inspects the stopped program has to lock the runtime, which the parked cycle thread holds",
+                                rec.reason,
+                                w.describe_start(rec.start)
+                            ));
+                            break;
+                        }
+                        Some(snap) => {
+                            stats.snapshot_checks += 1;
+                            if snap.now.as_nanos() != w.time_in_cycle(cycle) {
+                                verdict = Err(format!(
+                                    "snapshot at the stop ({:?}) at {} carries time {} ns, the cycle in progress runs at {} ns",
+                                    rec.reason,
+                                    w.describe_start(rec.start),
+                                    snap.now.as_nanos(),
+                                    w.time_in_cycle(cycle)
+                                ));
+                                break;
+                            }
+                        }
+                    }
+                    // a second notification before our resume means two stops without a
+                    // resume in between
                     let _ = control.mode();
                     if let Ok(second) = rx.try_recv() {
                         verdict = Err(format!(
